@@ -1,4 +1,5 @@
 import Zstd.Proofs.BlkHufBits
+import Zstd.Proofs.BlkSeq
 /-
 Part B of `Proofs/BlkHuf`: `read_weights` never panics (and its FSE loop never runs out of fuel);
 on success it leaves at most 257 weights and reports at most `source.len()` bytes.
@@ -29,36 +30,28 @@ theorem nibbles_ok : ∀ (n : Nat) (l : List Nat), (n + 1) / 2 ≤ l.length →
       refine ⟨_, rfl, ?_⟩
       split <;> simp [hl]
 
-/-! ### the FSE form -/
+/-! ### the FSE form (shared FSE model: `Fse.DTable.buildDecoder`, `Fse.Decoder`, `BitReaderRev`) -/
 
-theorem fseEntry_ok {ft : Spec.Fse.Table} {s : Nat} (h : s < ft.entries.size) :
-    ∃ e, fseEntry ft s = .ok e ∧ e ∈ ft.entries.toList := by
-  unfold fseEntry
-  rw [Array.getElem?_eq_getElem h]
-  exact ⟨_, rfl, Array.getElem_mem_toList h⟩
+theorem fseErr_not_fault {e : Fse.Err} (h : ∀ f, e ≠ .fault f) : ∀ f, fseErr e ≠ .fault f := by
+  intro f
+  cases e with
+  | fault f' => exact absurd rfl (h f')
+  | _ => intro h'; cases h'
 
-theorem fseUpdate_ok {ft : Spec.Fse.Table} (hft : SpecTableOK ft) {e : FseEntry} (he : e ∈ ft.entries.toList)
-    {br : RevReader} (hr : RInv br) :
-    ∃ e' br', fseUpdate ft e br = .ok (e', br') ∧ e' ∈ ft.entries.toList ∧ RInv br' := by
-  have h1 := hft.entries e he
-  have h2 := getBits_lt hr e.nbBits
-  obtain ⟨e', he', hm⟩ := fseEntry_ok (ft := ft) (s := e.baseline + (br.getBits e.nbBits).1) (by rw [hft.size]; omega)
-  unfold fseUpdate
-  simp only [he']
-  exact ⟨_, _, rfl, hm, RInv_getBits hr _⟩
-
-theorem fseWeightsLoop_ok {ft : Spec.Fse.Table} (hft : SpecTableOK ft) :
-    ∀ (fuel : Nat) (d1 d2 : FseEntry) (br : RevReader) (wsRev : List Nat) (k : Nat),
-      d1 ∈ ft.entries.toList → d2 ∈ ft.entries.toList → RInv br →
-      wsRev.length = 2 * k → k ≤ 127 → 128 ≤ k + fuel →
-      ∃ r, fseWeightsLoop ft fuel d1 d2 br wsRev = .ok r ∧ ∀ ws, r = .ok ws → ws.length ≤ 257 := by
+/-- the two-decoder loop on a built table: no fault, the fuel 130 is never exhausted (the weight count
+grows by two per round and the loop stops with TooManyWeights above 255), at most 257 weights -/
+theorem fseWeightsLoop_ok {ft : Fse.DTable} (hft : FseBuilt 6 ft) {src : Array Nat} :
+    ∀ (fuel : Nat) (d1 d2 : Fse.Decoder) (br : BitIO.BitReaderRev) (acc : List Nat) (k : Nat),
+      d1.state ∈ ft.decode.toList → d2.state ∈ ft.decode.toList → RevOK src br →
+      acc.length = 2 * k → k ≤ 127 → 128 ≤ k + fuel →
+      ∃ r, fseWeightsLoop ft fuel d1 d2 br acc = .ok r ∧ ∀ ws, r = .ok ws → ws.length ≤ 257 := by
   intro fuel
   induction fuel with
-  | zero => intro d1 d2 br wsRev k _ _ _ _ h1 h2; omega
+  | zero => intro d1 d2 br acc k _ _ _ _ h1 h2; omega
   | succ fuel ih =>
-    intro d1 d2 br wsRev k hd1 hd2 hr hlen hk hfuel
-    obtain ⟨d1', br1, hu1, hd1', hr1⟩ := fseUpdate_ok hft hd1 hr
-    obtain ⟨d2', br2, hu2, hd2', hr2⟩ := fseUpdate_ok hft hd2 hr1
+    intro d1 d2 br acc k hd1 hd2 hr hlen hk hfuel
+    obtain ⟨d1', br1, hu1, hr1, hd1'⟩ := updateState_built hft (by decide) hr d1 hd1
+    obtain ⟨d2', br2, hu2, hr2, hd2'⟩ := updateState_built hft (by decide) hr1 d2 hd2
     unfold fseWeightsLoop
     simp only [hu1]
     split
@@ -79,72 +72,80 @@ theorem fseWeightsLoop_ok {ft : Spec.Fse.Table} (hft : SpecTableOK ft) :
           intro ws h; cases h
         · rename_i hnot
           simp only [Gen.hufTooManyWeights, Gen.hufTooManyWeightsBound, List.length_cons] at hnot
-          have hnot' : ¬ (wsRev.length + 1 + 1 > 255) := by simpa using hnot
+          have hnot' : ¬ (acc.length + 1 + 1 > 255) := by simpa using hnot
           exact ih d1' d2' br2 _ (k + 1) hd1' hd2' hr2 (by simp; omega) (by omega) (by omega)
-
 
 /-! ### `read_weights` -/
 
-theorem readWeights_spec (H : SpecFseOK) (t : DecTable) (src : List Nat) :
+theorem readWeights_spec (t : DecTable) (src : List Nat) (hb : Bytes src) :
     (∀ f, (readWeights t src).2 ≠ .error (.fault f)) ∧
-    (Bytes src → ∀ t' used, readWeights t src = (t', .ok used) →
+    (∀ t' used, readWeights t src = (t', .ok used) →
       t'.weights.length ≤ 257 ∧ used ≤ src.length ∧ t'.maxNumBits = t.maxNumBits ∧ t'.decode = t.decode) := by
   unfold readWeights
   split
-  · refine ⟨fun f h => ?_, fun _ t' used h => ?_⟩ <;> simp at h
+  · refine ⟨fun f h => ?_, fun t' used h => ?_⟩ <;> simp at h
   · rename_i header rest
+    have hbr : Bytes rest := fun x hx => hb x (List.mem_cons_of_mem _ hx)
     split
     · -- FSE-compressed weights
       split
-      · refine ⟨fun f h => ?_, fun _ t' used h => ?_⟩ <;> simp at h
+      · refine ⟨fun f h => ?_, fun t' used h => ?_⟩ <;> simp at h
       · rename_i hhdr
-        split
-        · refine ⟨fun f h => ?_, fun _ t' used h => ?_⟩ <;> simp at h
-        · rename_i al probs used hdesc
-          split
-          · refine ⟨fun f h => ?_, fun _ t' used h => ?_⟩ <;> simp at h
-          · rename_i ft hbuild
-            obtain ⟨hft, hused⟩ := H rest al probs used ft hdesc hbuild
+        have hbra : Bytes rest.toArray.toList := by simpa using hbr
+        have hnf := buildDecoder_no_fault (Fse.DTable.new Gen.hufFseMaxSymbol) rest.toArray Gen.hufWeightsMaxLogDec hbra
+          (by decide) (by decide)
+        have hok := fun ft n => buildDecoder_ok (Fse.DTable.new Gen.hufFseMaxSymbol) ft rest.toArray
+          Gen.hufWeightsMaxLogDec n hbra (by decide) (by decide)
+        cases hbd : (Fse.DTable.new Gen.hufFseMaxSymbol).buildDecoder rest.toArray Gen.hufWeightsMaxLogDec with
+        | mk ft r =>
+          rw [hbd] at hnf
+          cases r with
+          | error e =>
+            simp only []
+            refine ⟨fun f h => ?_, fun t' used h => (by cases h)⟩
+            simp only [Except.error.injEq] at h
+            exact fseErr_not_fault (fun f' he => hnf f' (by rw [he])) f h
+          | ok used =>
+            obtain ⟨hft, _, hused⟩ := hok ft used hbd
+            have hft6 : FseBuilt 6 ft := hft
+            simp only []
             split
-            · refine ⟨fun f h => ?_, fun _ t' used h => ?_⟩ <;> simp at h
-            · simp only []
-              split
-              · refine ⟨fun f h => ?_, fun _ t' used h => ?_⟩ <;> simp at h
-              · have hr1 := RInv_skipPadding (RInv_new (List.take (header - used) (List.drop used rest))) 9 0
-                generalize skipPadding 9 0 (RevReader.new (List.take (header - used) (List.drop used rest))) = sp at hr1 ⊢
-                split
-                · refine ⟨fun f h => ?_, fun _ t' used h => ?_⟩ <;> simp at h
-                · split
-                  · refine ⟨fun f h => ?_, fun _ t' used h => ?_⟩ <;> simp at h
-                  · have hr2 := RInv_getBits hr1 ft.accLog
-                    have hr3 := RInv_getBits hr2 ft.accLog
-                    have hs1 := getBits_lt hr1 ft.accLog
-                    have hs2 := getBits_lt hr2 ft.accLog
-                    rw [← hft.size] at hs1 hs2
-                    obtain ⟨d1, hd1, hm1⟩ := fseEntry_ok hs1
-                    obtain ⟨d2, hd2, hm2⟩ := fseEntry_ok hs2
-                    obtain ⟨r, hloop, hlen⟩ := fseWeightsLoop_ok hft 200 d1 d2 _ [] 0 hm1 hm2 hr3 rfl (by omega) (by omega)
-                    simp only [hd1, hd2, hloop]
-                    cases r with
-                    | error ws => refine ⟨fun f h => ?_, fun _ t' used h => ?_⟩ <;> simp at h
-                    | ok ws =>
-                      refine ⟨fun f h => by simp at h, fun _ t' used' h => ?_⟩
-                      simp only [Prod.mk.injEq, Except.ok.injEq] at h
-                      obtain ⟨h1, h2⟩ := h
-                      subst h1 h2
-                      refine ⟨hlen ws rfl, ?_, rfl, rfl⟩
-                      simp only [List.length_cons]; omega
+            · refine ⟨fun f h => ?_, fun t' used h => ?_⟩ <;> simp at h
+            · split
+              · refine ⟨fun f h => ?_, fun t' used h => ?_⟩ <;> simp at h
+              · have hbs : Bytes ((rest.drop used).take (header - used)).toArray.toList := by
+                  exact fun x hx => hbr x (List.mem_of_mem_drop (List.mem_of_mem_take hx))
+                rcases skipPadding_ok 9 0 _ (RevOK_new hbs) with e | ⟨br0, e, hr0⟩
+                · rw [Fse.skipEndMark, e]
+                  refine ⟨fun f h => ?_, fun t' used h => ?_⟩ <;> simp at h
+                · rw [Fse.skipEndMark, e]
+                  simp only []
+                  obtain ⟨d1, br1, e1, hr1, hd1⟩ := initState_built hft6 (by decide) hr0 (Fse.Decoder.new ft)
+                  rw [e1]; simp only []
+                  obtain ⟨d2, br2, e2, hr2, hd2⟩ := initState_built hft6 (by decide) hr1 (Fse.Decoder.new ft)
+                  rw [e2]; simp only []
+                  obtain ⟨r, hloop, hlen⟩ := fseWeightsLoop_ok hft6 130 d1 d2 br2 [] 0 hd1 hd2 hr2 rfl (by omega) (by omega)
+                  rw [hloop]
+                  cases r with
+                  | error ws => refine ⟨fun f h => ?_, fun t' used h => ?_⟩ <;> simp at h
+                  | ok ws =>
+                    refine ⟨fun f h => by simp at h, fun t' used' h => ?_⟩
+                    simp only [Prod.mk.injEq, Except.ok.injEq] at h
+                    obtain ⟨h1, h2⟩ := h
+                    subst h1 h2
+                    refine ⟨hlen ws rfl, ?_, rfl, rfl⟩
+                    simp only [List.length_cons]; omega
     · -- direct form
       rename_i hhdr
       simp only []
       generalize hnum : header - Gen.hufDirectHeaderSubDec = num
       by_cases hneed : rest.length < (if num % 2 = 0 then num / 2 else num / 2 + 1)
       · rw [if_pos hneed]
-        refine ⟨fun f h => ?_, fun _ t' used h => ?_⟩ <;> simp at h
+        refine ⟨fun f h => ?_, fun t' used h => ?_⟩ <;> simp at h
       · rw [if_neg hneed]
         obtain ⟨ws, hws, hlen⟩ := nibbles_ok num rest (by split at hneed <;> omega)
         simp only [hws]
-        refine ⟨fun f h => by simp at h, fun hb t' used' h => ?_⟩
+        refine ⟨fun f h => by simp at h, fun t' used' h => ?_⟩
         simp only [Prod.mk.injEq, Except.ok.injEq] at h
         obtain ⟨h1, h2⟩ := h
         subst h1 h2
@@ -154,12 +155,12 @@ theorem readWeights_spec (H : SpecFseOK) (t : DecTable) (src : List Nat) :
         simp only [List.length_cons]
         split at hneed <;> split <;> omega
 
-theorem readWeights_no_fault (H : SpecFseOK) (t : DecTable) (src : List Nat) (f : Fault) :
-    (readWeights t src).2 ≠ .error (.fault f) := (readWeights_spec H t src).1 f
+theorem readWeights_no_fault (t : DecTable) (src : List Nat) (hb : Bytes src) (f : Fault) :
+    (readWeights t src).2 ≠ .error (.fault f) := (readWeights_spec t src hb).1 f
 
-theorem readWeights_ok (H : SpecFseOK) {t : DecTable} {src : List Nat} (hb : Bytes src) {t' : DecTable} {used : Nat}
+theorem readWeights_ok {t : DecTable} {src : List Nat} (hb : Bytes src) {t' : DecTable} {used : Nat}
     (h : readWeights t src = (t', .ok used)) :
     t'.weights.length ≤ 257 ∧ used ≤ src.length ∧ t'.maxNumBits = t.maxNumBits ∧ t'.decode = t.decode :=
-  (readWeights_spec H t src).2 hb t' used h
+  (readWeights_spec t src hb).2 t' used h
 
 end Zstd.Proofs.Blk
